@@ -120,7 +120,29 @@ func c06Run(c c06Case) []mc.Finding {
 	// rules listed before it)
 	o := ccOpt{parent: kit.Thing, children: []*sim.Kind{kit.Gadget, k}, generateSel: true}
 	if c.Method != "<unset>" {
-		o.methods = map[string]v1alpha1.ChildUpdateMethod{k.Resource: v1alpha1.ChildUpdateMethod(c.Method)}
+		o.methodsOf = map[*sim.Kind]v1alpha1.ChildUpdateMethod{k: v1alpha1.ChildUpdateMethod(c.Method)}
+	}
+	// Widget cases: a third child type with the SAME Kind and plural in the core group, under the opposite kind of
+	// strategy, with a child of the same name that never differs from its desired state: never written, and
+	// without influence on how the child under test is treated
+	var twin *sim.Kind
+	if k == kit.Widget {
+		twin = kit.CoreWidget
+		o.children = []*sim.Kind{kit.Gadget, twin, k}
+		tm := v1alpha1.ChildUpdateRecreate
+		if c.Method == "Recreate" || c.Method == "RollingRecreate" {
+			tm = v1alpha1.ChildUpdateInPlace
+		}
+		if o.methodsOf == nil {
+			o.methodsOf = map[*sim.Kind]v1alpha1.ChildUpdateMethod{}
+		}
+		o.methodsOf[twin] = tm
+	}
+	withTwin := func(ch kit.L) kit.L {
+		if twin != nil {
+			ch = append(ch, kit.Field(kit.Obj(twin, "", "a"), "1", "spec", "v"))
+		}
+		return ch
 	}
 	w := newCWorld(o, false)
 	names := []string{"a", "b"}[:c.N]
@@ -132,12 +154,12 @@ func c06Run(c c06Case) []mc.Finding {
 			if c.Doomed {
 				ch = append(ch, kit.Field(kit.Obj(k, "", "zz-gone"), "1", "spec", "v"))
 			}
-			return kit.M{"status": kit.M{}, "children": ch}
+			return kit.M{"status": kit.M{}, "children": withTwin(ch)}
 		default:
 			if !c.Desired {
-				return kit.M{"status": kit.M{}, "children": kit.L{}}
+				return kit.M{"status": kit.M{}, "children": withTwin(kit.L{})}
 			}
-			return kit.M{"status": kit.M{}, "children": c06Desired(k, names, c, true)}
+			return kit.M{"status": kit.M{}, "children": withTwin(c06Desired(k, names, c, true))}
 		}
 	}))
 	w.Sim.Seed(kit.Obj(kit.Thing, "n1", "p"))
@@ -232,6 +254,17 @@ func c06Run(c c06Case) []mc.Finding {
 			}
 		}
 	}
+	twinWrites := func(phase string) {
+		if twin == nil {
+			return
+		}
+		for _, r := range w.Sim.Log {
+			if r.Kind == twin && r.Mutating() {
+				bad("twin-written", "%s: %s - a child of the same Kind and name in another API group, which never differed from its desired state", phase, r)
+			}
+		}
+	}
+	twinWrites("sync")
 	// follow-up sync after the caches caught up
 	w.DeliverAll()
 	w.Sim.ResetLog()
@@ -250,6 +283,7 @@ func c06Run(c c06Case) []mc.Finding {
 			}
 		}
 	}
+	twinWrites("follow-up")
 	return f
 }
 
